@@ -158,6 +158,13 @@ var Library = api.FunctionSymbols{
 	"second": func(c *api.Context, p P) (int, error) { return p.B, nil },
 	"apply":  func(c *api.Context, f Fn1, x int) (int, error) { return f(c, x) },
 	"apply2": func(c *api.Context, f Fn2, x int, y int) (int, error) { return f(c, x, y) },
+	"applyto": func(c *api.Context, x int, y int, f Fn1) (int, error) {
+		r, err := f(c, x)
+		if err != nil {
+			return 0, err
+		}
+		return r - 3*y, nil
+	},
 	"twice": func(c *api.Context, f Fn1, x int) (int, error) {
 		y, err := f(c, x)
 		if err != nil {
@@ -413,6 +420,20 @@ func init() {
 			}
 			return in.callInt(args[0], xy[0], xy[1])
 		}},
+		{name: "applyto", arity: 3, f: func(in *Interp, args []Value) (Value, error) {
+			xy, err := ints(in, args[:2])
+			if err != nil {
+				return nil, err
+			}
+			if err := in.wantFn(args[2], 1); err != nil {
+				return nil, err
+			}
+			r, err := in.callInt(args[2], xy[0])
+			if err != nil {
+				return nil, err
+			}
+			return r - 3*xy[1], nil
+		}},
 		{name: "twice", arity: 2, f: func(in *Interp, args []Value) (Value, error) {
 			if err := in.wantFn(args[0], 1); err != nil {
 				return nil, err
@@ -571,7 +592,7 @@ type Gen struct {
 // function with the parameters used in order, out of order, twice or not at all.
 func (g Gen) eta(t *rapid.T, scope []binding, n int, depth int) E {
 	k := func() E { return g.Expr(t, scope, tInt, 0) }
-	a, b := Sym("a"), Sym("b")
+	a, b, x := Sym("a"), Sym("b"), Sym("x")
 	op := rapid.SampledFrom([]string{"add", "sub", "div", "mul"}).Draw(t, "etaop")
 	if n == 1 {
 		shapes := []E{
@@ -602,6 +623,19 @@ func (g Gen) eta(t *rapid.T, scope []binding, n int, depth int) E {
 		Lam([]string{"a", "b"}, CallSym("neg", a)),
 		Lam([]string{"a", "b"}, CallSym(op, a)),
 		Lam([]string{"a", "b"}, CallSym(op, a, k())),
+		// the arguments after the leading parameters hold a lambda that rebinds one parameter and uses the other
+		Lam([]string{"a", "b"}, CallSym("sub3", a, b, CallSym("apply", Lam([]string{"a"}, CallSym(op, b, a)), k()))),
+		Lam([]string{"a", "b"}, CallSym("sub3", a, b, CallSym("apply", Lam([]string{"b"}, CallSym(op, a, b)), k()))),
+		Lam([]string{"a", "b"}, CallSym("sub3", a, b, CallSym("apply", Lam([]string{"a"}, CallSym(op, a, k())), k()))),
+		// and the lambda is itself the argument that remains
+		Lam([]string{"a", "b"}, CallSym("applyto", a, b, Lam([]string{"a"}, CallSym(op, b, a)))),
+		Lam([]string{"a", "b"}, CallSym("applyto", a, b, Lam([]string{"b"}, CallSym(op, a, b)))),
+		Lam([]string{"a", "b"}, CallSym("applyto", a, b, Lam([]string{"x"}, CallSym(op, x, k())))),
+		Lam([]string{"a", "b"}, CallSym("applyto", a, b, Sym("neg"))),
+	}
+	if depth > 0 {
+		inner := append(append([]binding{}, scope...), binding{"a", tInt}, binding{"b", tInt})
+		shapes = append(shapes, Lam([]string{"a", "b"}, CallSym("sub3", a, b, g.Expr(t, inner, tInt, depth-1))))
 	}
 	return shapes[rapid.IntRange(0, len(shapes)-1).Draw(t, "eta2")]
 }
@@ -699,7 +733,7 @@ func (g Gen) Expr(t *rapid.T, scope []binding, want typ, depth int) E {
 		opts = append(opts, "var", "var", "var")
 	}
 	if depth > 0 {
-		opts = append(opts, "op", "op", "op", "neg", "sum", "pairpart", "apply", "apply2", "twice", "call-lam", "call-lam", "call-fn", "call-fn", "pipe", "pipe", "lam-fn-arg")
+		opts = append(opts, "op", "op", "op", "neg", "sum", "pairpart", "apply", "apply2", "twice", "applyto", "call-lam", "call-lam", "call-fn", "call-fn", "pipe", "pipe", "lam-fn-arg")
 		if g.IllFormed {
 			opts = append(opts, "over", "nonfn")
 		}
@@ -725,6 +759,8 @@ func (g Gen) Expr(t *rapid.T, scope []binding, want typ, depth int) E {
 		return CallSym("apply2", g.Expr(t, scope, tFn2, depth-1), g.Expr(t, scope, tInt, depth-1), g.Expr(t, scope, tInt, depth-1))
 	case "twice":
 		return CallSym("twice", g.Expr(t, scope, tFn1, depth-1), g.Expr(t, scope, tInt, depth-1))
+	case "applyto":
+		return CallSym("applyto", g.Expr(t, scope, tInt, depth-1), g.Expr(t, scope, tInt, depth-1), g.Expr(t, scope, tFn1, depth-1))
 	case "call-lam": // a lambda literal applied directly
 		n := rapid.IntRange(0, 2).Draw(t, "nparams")
 		args := make([]E, n)
